@@ -1427,6 +1427,7 @@ def run(ctx):
                        'mixed-dtype stacks are coerced to float before stacking (class/dtype choice of stack belongs to C04)']
     if ctx.ensure_library():
         ctx.prove(['theories/Props/C15.v'])
+        ctx.shape_obligations()        # regenerated from the current source: see coq/obl/Shp_C15.v
     cases = gen_cases(ctx.rng, ctx.tier)
     ctx.log('%d cases' % len(cases))
     terms, idx, bad = [], [], []
